@@ -129,14 +129,14 @@ class Proto:
         rec(self.defs)
         return out
 
-    def files(self) -> Dict[str, str]:
+    def files(self, style: Optional["Style"] = None) -> Dict[str, str]:
         """All files (this proto and, transitively, its imports): filename -> text."""
         out: Dict[str, str] = {}
 
         def rec(p: "Proto") -> None:
             if p.fname() in out:
                 return
-            out[p.fname()] = print_proto(p)
+            out[p.fname()] = print_proto(p, style)
             for im in p.imports:
                 rec(im.proto)
 
